@@ -392,6 +392,14 @@ def generate(rng, tier, index):
         faults.append({"seam": "read", "at": rng.randint(0, len(urls) - 1),
                        "kind": rng.choice(["read-eio", "read-reset",
                                            "read-timeout"])})
+    if app and rng.random() < 0.3:
+        # a datatype / key type / section datatype of the application raises
+        # an error of its own (not a ValueError): it passes through unchanged
+        from zcsim import simdt
+        seam = rng.choice(["conv", "conv", "keytype", "sect"])
+        faults.append({"seam": seam, "at": rng.randint(0, 3),
+                       "kind": "%s-foreign-%s" % (
+                           seam, rng.choice(sorted(simdt.FOREIGN)))})
     entry = rng.choice(["url", "url", "path", "file", "file-nourl"])
     if entry == "path" and not top.startswith("file:///sim/"):
         entry = "url"
@@ -399,7 +407,12 @@ def generate(rng, tier, index):
         entry = "url"
     plan = {"prop": ID, "schema_xml": xml, "store": store, "top": top,
             "entry": entry, "overrides": overrides, "realfs": realfs,
-            "faults": faults, "labels": labels, "validator": None}
+            "faults": faults, "labels": labels, "validator": None,
+            # the charset the simulated HTTP server claims for its (UTF-8)
+            # bodies: usually right, sometimes unknown to Python or no text
+            # encoding at all, sometimes absent
+            "http_charset": rng.choice(["utf-8"] * 5 + [
+                "x-klingon", "hex", "utf8mb4", "UTF-8", None])}
     if realfs and rng.random() < 0.5:
         # validator.main over 1..3 files: the top and further corrupted copies
         files = [top]
@@ -542,6 +555,7 @@ def _execute(plan, out, scratch):
         else:
             fn = lambda: ZConfig.loadConfigFile(                      # noqa
                 schema, io.StringIO(text), overrides=overrides)
+        w.http_charset = plan.get("http_charset", "utf-8")
         w.begin_op("load", plan.get("faults") or ())
         o = ops.config_outcome(fn)
         fired = w.op_fired
@@ -555,7 +569,15 @@ def _execute(plan, out, scratch):
             for lab in plan["labels"]:
                 out["fired"][lab] = out["fired"].get(lab, 0) + 1
             probe("rejected:" + o["cls"])
-        if internal(o):
+        if w.foreign:
+            probe("datatype-raised-its-own-error")
+            if o["ok"] or not o.get("is_foreign"):
+                violation("datatype-error-not-passed-through",
+                          "a datatype function raised %r; the load %s"
+                          % (w.foreign[0], "returned a configuration"
+                             if o["ok"] else "raised " + ops.brief(o)),
+                          {"cls": o.get("cls"), "site": o.get("site")})
+        if internal(o) and not o.get("is_foreign"):
             violation("internal-exception",
                       "%s escaped from the load (entry %s, overrides %r, "
                       "faults %r): raised in %s, innermost ZConfig frame %s"
